@@ -213,6 +213,33 @@ def aggregates(res):
             res.violation('h04:interval-dtype:' + q[7:40], 'interval arithmetic announces a truthful datatype', {'query': q}, f'{type(v).__name__}: {v!r}', dt.__name__)
 
 
+def composite(res):
+    """boolean connectives over non-boolean operands, and columns of subqueries (also with repeated output names): every value is
+    NULL or an instance of the announced datatype (a bool column holds truth values, not the falsy operand)"""
+    cols = [('i', int), ('d', Decimal), ('s', str), ('t', datetime.date), ('b', bool)]
+    rows = [(1, D('1.5'), 'x', date(2024, 1, 1), True), (None, None, None, None, None), (0, D('0.00'), '', date(2023, 1, 1), False), (2, D('0'), 'y', date(2025, 1, 1), True)]
+    conn = make_conn(t=(cols, rows))
+    qs = ['SELECT i AND TRUE, d AND TRUE, s AND TRUE, TRUE AND i, i AND d AND s FROM #t', 'SELECT i OR FALSE, d OR FALSE, s OR FALSE, FALSE OR s, NOT i, NOT s FROM #t',
+          'SELECT x, y FROM (SELECT i AND TRUE AS x, s OR FALSE AS y FROM #t)', 'SELECT s, t FROM (SELECT i, i, s, t FROM #t)', 'SELECT length(s), t FROM (SELECT d, d, s, t FROM #t)',
+          'SELECT k, s FROM (SELECT i AS k, d AS k, s FROM #t)', 'SELECT sum(b), sum(i > 0), count(b) FROM #t', 'SELECT s, sum(i = 1) FROM #t GROUP BY s']
+    for q in qs:
+        res.case(q)
+        try:
+            cur = conn.execute(q)
+            got = cur.fetchall()
+        except beanquery.ProgrammingError:
+            continue
+        except Exception as e:  # noqa
+            res.violation('h04:composite-error:' + q[:60], 'a query accepted by the type checker never fails with a type error', {'query': q}, f'{type(e).__name__}: {e}', None)
+            continue
+        for j, dsc in enumerate(cur.description):
+            bad = [r[j] for r in got if not conforms(r[j], dsc.datatype) or (dsc.datatype is bool and r[j] is not None and type(r[j]) is not bool)
+                   or (dsc.datatype is int and type(r[j]) is bool)]
+            if bad:
+                res.violation(f'h04:composite-dtype:{q[:50]}:{j}', 'every value of a result column is NULL or an instance of the announced datatype', {'query': q, 'column': dsc.name},
+                              f'{type(bad[0]).__name__}: {bad[0]!r}', dsc.datatype.__name__)
+
+
 def renderers(res):
     from beanquery import query_render
     seen = set()
@@ -244,6 +271,7 @@ def run(tier, seed):
     table_columns(res, 'A', ledger.LEDGER_A)
     table_columns(res, 'B', ledger.LEDGER_B)
     aggregates(res)
+    composite(res)
     renderers(res)
     return res.asdict()
 
